@@ -95,6 +95,13 @@ class C06:
                     # values are passed on as they are: quotes, surrounding blanks and line ends belong to them
                     ev[k] = list(rng.choice([b"v\xc3\xa9", b"a b", b"", b'"22.04"', b"'alpine'", b" 20230201\n", b'6"', b"\tx ", b"V8"]))
             plan = g8.valid(rng, "plan")
+            # a plan that cannot be represented (a key the format does not define, in an entry or at the top): the phase
+            # reports an error instead of handing over a context without it
+            r = rng.random()
+            if r < 0.1 and plan.get("entries"):
+                plan["entries"][rng.randrange(len(plan["entries"]))][rng.choice(["version", "metdata", "Name"])] = "3.3"
+            elif r < 0.14:
+                plan[rng.choice(["entry", "Entries"])] = []
             store = g8.valid(rng, "store") if rng.random() < 0.6 else None
             meta = g8.meta(rng) if rng.random() < 0.6 else None
             cases.append(self.mk(cfg, tree, ev, plan, store, meta))
